@@ -20,6 +20,10 @@ type AnyVal interface{}
 type PtrV struct {
 	Obj int
 	Idx int
+	VW  int // reinterpreted view through unsafe.Pointer: element width in bits of the viewing array type (0: none).
+	// With VW != 0, Idx == -1 denotes the whole viewed array starting at byte-array element VOff, Idx >= 0 the viewed
+	// element that starts at underlying element Idx.
+	VOff int
 }
 
 // SliceV is a slice of a scalar array object.
@@ -46,13 +50,13 @@ type OpaqueV struct{ What string }
 // Object is an abstract memory object.
 type Object struct {
 	Name string
-	Vals []Val    // scalar array / scalar (len 1)
-	Kids []int    // aggregate: sub-objects
-	Cell AnyVal   // pointer-like cell
-	Kind string   // "arr" | "agg" | "cell"
-	W    int      // element width for arr
+	Vals []Val  // scalar array / scalar (len 1)
+	Kids []int  // aggregate: sub-objects
+	Cell AnyVal // pointer-like cell
+	Kind string // "arr" | "agg" | "cell"
+	W    int    // element width for arr
 	Sg   bool
-	View int      // element width of a reinterpreted view (unsafe casts), 0 if none
+	View int // element width of a reinterpreted view (unsafe casts), 0 if none
 }
 
 // State is the abstract heap.
@@ -182,26 +186,26 @@ type Hooks struct {
 
 // Interp is one run of the abstract interpreter.
 type Interp struct {
-	St       *State
-	H        Hooks
-	Findings []Finding
-	seen     map[string]bool
-	stack    []string
-	steps    int
-	symInfo  map[string]Val
-	wideN    int
-	forks    int
-	pending  map[string]Finding // tentative borrow findings keyed by the value number of the difference
+	St         *State
+	H          Hooks
+	Findings   []Finding
+	seen       map[string]bool
+	stack      []string
+	steps      int
+	symInfo    map[string]Val
+	wideN      int
+	forks      int
+	pending    map[string]Finding // tentative borrow findings keyed by the value number of the difference
 	pendingAdd map[string]Finding // tentative overflow findings of x + (b<<k), settled by the following - y
-	globals  map[*ssa.Global]int
-	Err      error
+	globals    map[*ssa.Global]int
+	Err        error
 	InstrsSeen map[ssa.Instruction]bool
-	ValOf    map[ssa.Value]Val // join of the abstract values each integer instruction took
-	carries  map[string]string // poly.go: (polynomial, shift) -> carry variable
-	highOf   map[string]splitInfo // carry variable -> what it is the high part of
-	lowOf    map[string]splitInfo // key of a low part -> what it is the low part of
-	bools    map[string]string    // poly.go: boolean variables
-	slices   map[string]sliceInfo // poly.go: key of a bit slice -> its normal form
+	ValOf      map[ssa.Value]Val    // join of the abstract values each integer instruction took
+	carries    map[string]string    // poly.go: (polynomial, shift) -> carry variable
+	highOf     map[string]splitInfo // carry variable -> what it is the high part of
+	lowOf      map[string]splitInfo // key of a low part -> what it is the low part of
+	bools      map[string]string    // poly.go: boolean variables
+	slices     map[string]sliceInfo // poly.go: key of a bit slice -> its normal form
 	sliceDepth int
 }
 
@@ -640,6 +644,30 @@ func (it *Interp) instr(f *frame, in ssa.Instruction) {
 				return
 			}
 		}
+		if w, sg, isInt := intInfo(x.Type()); isInt {
+			// pointer -> uintptr: the numeric address is unknown
+			if _, isPtr := v.(PtrV); isPtr {
+				f.env[x] = Top(w, sg)
+				return
+			}
+		}
+		// unsafe.Pointer -> *[n]T over an array of narrower elements: a reinterpreting view
+		if pt, ok := x.Type().Underlying().(*types.Pointer); ok {
+			if at, ok := pt.Elem().Underlying().(*types.Array); ok {
+				if ew, _, isInt := intInfo(at.Elem()); isInt {
+					if pv, ok := v.(PtrV); ok && pv.VW == 0 {
+						if o := it.St.Objs[pv.Obj]; o.Kind == "arr" && o.W != ew && o.W == 8 {
+							off := pv.Idx
+							if off < 0 {
+								off = 0
+							}
+							f.env[x] = PtrV{Obj: pv.Obj, Idx: -1, VW: ew, VOff: off}
+							return
+						}
+					}
+				}
+			}
+		}
 		f.env[x] = v // pointer <-> unsafe.Pointer etc. keep the value
 	case *ssa.ChangeType, *ssa.ChangeInterface, *ssa.MakeInterface:
 		ops := in.Operands(nil)
@@ -721,6 +749,15 @@ func (it *Interp) indexAddr(f *frame, x *ssa.IndexAddr) AnyVal {
 			return OpaqueV{"index of element pointer"}
 		}
 		o := it.St.Objs[b.Obj]
+		if b.VW != 0 {
+			per := b.VW / o.W
+			at := b.VOff + i*per
+			if i < 0 || at+per > len(o.Vals) {
+				it.Err = fmt.Errorf("index %d out of range of a %d-bit view over %d bytes in %s", i, b.VW, len(o.Vals), f.fn.Name())
+				return OpaqueV{"oob"}
+			}
+			return PtrV{Obj: b.Obj, Idx: at, VW: b.VW}
+		}
 		if o.Kind == "arr" {
 			n := len(o.Vals)
 			if o.View != 0 {
@@ -782,6 +819,9 @@ func (it *Interp) slice(f *frame, x *ssa.Slice) AnyVal {
 
 func (it *Interp) loadElem(p PtrV, t types.Type) AnyVal {
 	o := it.St.Objs[p.Obj]
+	if p.VW != 0 && p.Idx >= 0 && o.Kind == "arr" && o.W == 8 {
+		return it.leLoad(SliceV{Obj: p.Obj, Off: p.Idx, Len: p.VW / 8}, p.VW/8, p.VW)
+	}
 	switch {
 	case o.Kind == "arr" && p.Idx >= 0 && p.Idx < len(o.Vals) && o.View == 0:
 		return o.Vals[p.Idx]
@@ -1134,6 +1174,12 @@ func (it *Interp) store(addr, v AnyVal, in ssa.Instruction) {
 	if _, isNil := v.(NilV); isNil && p.Idx == -1 && (o.Kind == "agg" || (o.Kind == "arr" && len(o.Vals) > 1)) {
 		// `*p = T{}`: the zero value of an aggregate
 		it.zeroObj(p.Obj)
+		return
+	}
+	if p.VW != 0 && p.Idx >= 0 && o.Kind == "arr" && o.W == 8 {
+		if iv, ok := v.(Val); ok {
+			it.leStore(SliceV{Obj: p.Obj, Off: p.Idx, Len: p.VW / 8}, p.VW/8, iv)
+		}
 		return
 	}
 	switch {
